@@ -228,6 +228,7 @@ class Effects:
         self.max_depth = max_depth
         self._loops = {}
         self._sites = {}
+        self._conds = {}
 
     # ---- local structure ----------------------------------------------------------------------
     def loops(self, fn):
@@ -288,6 +289,21 @@ class Effects:
             back.add(b)
             work.extend(preds[b])
         return [c for c in fn.calls if c.bb in reach and c.bb in back]
+
+    def feasible(self, fn, bb, mapping):
+        """constant pruning: a block guarded by `x is Variant V` is infeasible when the substituted x
+        is a literal of another variant (e.g. the Replace arm when the caller passes Keep)"""
+        from .guards import conditions
+        key = (fn.path, bb)
+        if key not in self._conds:
+            self._conds[key] = [c for c in conditions(fn, bb, self.slicer) if c.kind == 'variant' and c.subject is not None]
+        for c in self._conds[key]:
+            subj = self.subst(c.subject, mapping) if mapping else c.subject
+            while subj[0] == 'unwrap' and subj[1][0] == 'agg' and subj[1][2] in ('Ok', 'Some'):
+                subj = dict(subj[1][3]).get('0', subj)
+            if subj[0] == 'agg' and subj[2] is not None and subj[1] == c.enum and subj[2] not in c.outcome:
+                return False
+        return True
 
     # ---- substitution -------------------------------------------------------------------------
     def subst(self, v, mapping):
@@ -360,7 +376,7 @@ class Effects:
         if mode == 'must':
             calls = self.must_calls(fn, site_bbs)
         else:
-            calls = [(c, None) for c in self.may_calls(fn, site_bbs)]
+            calls = [(c, None) for c in self.may_calls(fn, site_bbs) if self.feasible(fn, c.bb, mapping)]
         for c, forall in calls:
             self._expand_call(fn, c, forall, mode, mapping, chain, _stack, out)
         return out
@@ -504,18 +520,3 @@ def outcomes(E, fn, mapping=None, chain=(), stack=()):
         else:
             res.append(Outcome(('tuple', ()), must, may, conds, (site,)))
     return res
-
-
-def _traits_methods(prog):
-    if not hasattr(prog, '_tm'):
-        s = set()
-        for t in prog.traits.values():
-            for it in t['items']:
-                s.add(it['path'])
-        prog._tm = s
-    return prog._tm
-
-
-# attach as method (kept here to avoid a circular import in mir.py)
-from . import mir as _mir
-_mir.Program.traits_methods = _traits_methods
